@@ -12,6 +12,7 @@ import DaskModel.Model.ArrayCache
 import DaskModel.Model.C20xIO
 import DaskModel.Model.ArrOverlapNdIO
 import DaskModel.Model.C21xIO
+import DaskModel.Model.C29xIO
 open Dask
 open Dask.Slice1D
 open Dask.SetItem
@@ -478,7 +479,7 @@ def table : List (String × Handler) := [
   ("blockbool", hBlockBool), ("revvalue", hRevValue),
   ("pyindices", hPyIndices), ("pyslice", hPySlice), ("pymod", hPyMod), ("normslice", hNormSlice),
   ("slice1d", hSlice1d), ("slice1dint", hSlice1dInt), ("newblockdim", hNewBlockdim),
-  ("planden", hPlanDen), ("posify", hPosify), ("takeplan", hTakePlan)] ++ Dask.C20xIO.handlers ++ Dask.ArrOverlapNdIO.handlers ++ Dask.C21xIO.handlers
+  ("planden", hPlanDen), ("posify", hPosify), ("takeplan", hTakePlan)] ++ Dask.C20xIO.handlers ++ Dask.ArrOverlapNdIO.handlers ++ Dask.C21xIO.handlers ++ Dask.C29xIO.handlers
 
 end SlicingDriver
 
